@@ -196,7 +196,7 @@ theorem esteps_binding (g : Globals) (b : Bind) (s : St) : ESteps s (binding g b
         · exact h1.tail (EStep.addErr _ _ _ _ _)
         · split
           · exact h1.tail (EStep.addErr _ _ _ _ _)
-          · exact h1.tail (EStep.emit s1 _ rfl rfl rfl (by intro v hv; simp [Instr.usesValue] at hv; exact ⟨b.name, hv ▸ hl⟩))
+          · exact h1.tail (EStep.emit s1 _ rfl rfl rfl (by intro v hv; simp [Instr.usesValue] at hv; exact ⟨b.name, hv ▸ hl⟩) rfl)
 
 theorem esteps_callStmt (g : Globals) (c : CallS) (s : St) : ESteps s (callStmt g c s) := by
   unfold callStmt
@@ -272,12 +272,12 @@ theorem esteps_ifCondCalc (g : Globals) (c : IfCond) (lb le ln : Name) (isElse :
       rw [he] at h1
       cases a with
       | none => exact h1
-      | some r => exact h1.tail (EStep.emit s1 _ rfl rfl rfl (by intro v hv; simp [Instr.usesValue] at hv))
+      | some r => exact h1.tail (EStep.emit s1 _ rfl rfl rfl (by intro v hv; simp [Instr.usesValue] at hv) rfl)
   | logic lc =>
     dsimp only
     have h1 := esteps_condExprM g lc s
     generalize condExprM g lc s = res at h1
     obtain ⟨reg, s1⟩ := res
-    exact h1.tail (EStep.emit s1 _ rfl rfl rfl (by intro v hv; simp [Instr.usesValue] at hv))
+    exact h1.tail (EStep.emit s1 _ rfl rfl rfl (by intro v hv; simp [Instr.usesValue] at hv) rfl)
 
 end SemVerif
